@@ -73,7 +73,22 @@ inline void fatalEvent(const char * what)
 
 inline void onAlarm(int) { fatalEvent("hang"); _exit(3); }
 inline void onTerminate() { fatalEvent("terminate"); _exit(4); }
-inline void armWatchdog(unsigned seconds) { std::signal(SIGALRM, onAlarm); alarm(seconds); }
+// a dying process (sanitizer report, SIGSEGV, abort) first writes out the buffered trace and a record that names the script it was running
+inline void onDeath() { static bool once = false; if(once) return; once = true; fatalEvent("died"); }
+inline void onDeathSignal(int sig) { onDeath(); std::signal(sig, SIG_DFL); raise(sig); }
+}
+extern "C" void __sanitizer_set_death_callback(void (*)(void)) __attribute__((weak));
+namespace vf {
+inline void armWatchdog(unsigned seconds)
+{
+	static bool armed = false;
+	if(! armed) {
+		armed = true;
+		if(__sanitizer_set_death_callback) __sanitizer_set_death_callback(&onDeath);
+		std::signal(SIGSEGV, onDeathSignal); std::signal(SIGABRT, onDeathSignal); std::signal(SIGBUS, onDeathSignal); std::signal(SIGFPE, onDeathSignal);
+	}
+	std::signal(SIGALRM, onAlarm); alarm(seconds);
+}
 
 // ---- fault injection hooks (defined for real in fault.h; harness bookkeeping suspends them)
 static int g_faultSuspend = 0;
